@@ -206,6 +206,24 @@ func (sc *collection) doBuild(ctx context.Context) (Provider, error) {
 		}
 	}
 
+	// A group dependency is a dependency on every member of the group: connect the
+	// group's node to its members so that cycles through a group are found and
+	// members are created before their consumers.
+	for groupKey, members := range sc.groups {
+		node := &groupNode{typ: groupKey.Type, group: groupKey.Group}
+		for _, member := range members {
+			node.deps = append(node.deps, &reflection.Dependency{Type: member.Type, Key: member.Key, Group: member.Group})
+		}
+
+		if err := g.AddProviderDeferred(node); err != nil {
+			return nil, &BuildError{
+				Phase:   "graph",
+				Details: fmt.Sprintf("failed to add group %q of %v", groupKey.Group, formatType(groupKey.Type)),
+				Cause:   err,
+			}
+		}
+	}
+
 	// Phase 2: Validate graph (cycles detected here, not per-add)
 	if err := g.DetectCycles(); err != nil {
 		return nil, &BuildError{
@@ -717,6 +735,18 @@ func (r *collection) registerDescriptor(descriptor *Descriptor) error {
 	return nil
 }
 
+// groupNode represents a whole group in the dependency graph.
+type groupNode struct {
+	typ   reflect.Type
+	group string
+	deps  []*reflection.Dependency
+}
+
+func (n *groupNode) GetType() reflect.Type                     { return n.typ }
+func (n *groupNode) GetKey() any                               { return nil }
+func (n *groupNode) GetGroup() string                          { return n.group }
+func (n *groupNode) GetDependencies() []*reflection.Dependency { return n.deps }
+
 // rollbackTo undoes the registrations made after allDescriptors had length mark.
 func (r *collection) rollbackTo(mark int) {
 	for i := len(r.allDescriptors) - 1; i >= mark; i-- {
@@ -780,6 +810,21 @@ func (c *collection) validateLifetimes() error {
 		// Both Singleton and Transient cannot depend on Scoped
 		for _, dep := range descriptor.Dependencies {
 			if dep == nil {
+				continue
+			}
+
+			// A group dependency captures every member of the group
+			if dep.Group != "" {
+				for _, member := range c.groups[GroupKey{Type: dep.Type, Group: dep.Group}] {
+					if member != nil && member.Lifetime == Scoped {
+						return &LifetimeConflictError{
+							ServiceType:        descriptor.Type,
+							ServiceLifetime:    descriptor.Lifetime,
+							DependencyType:     dep.Type,
+							DependencyLifetime: Scoped,
+						}
+					}
+				}
 				continue
 			}
 
